@@ -313,6 +313,12 @@ func (o *Oracle) reqs(idx int, op Op, res string, pre, post *Dump) {
 	} else if post.LaunchDeadline != pre.LaunchDeadline {
 		o.fail("C09", "deadline_changes_only_by_launch_or_report", "batch-changed-deadline", "a non-launch batch changed the deadline", idx)
 	}
+	if _, after := post.KVMap["launched-flag"]; !launch && !launched && after {
+		// a batch without a single launch request (an empty round included) is not the launch: if it sets the flag, the real
+		// launch round that follows is ignored as a whole and its requests never reach their NodeHosts
+		o.fail("C09", "launch_once", "non-launch-batch-set-launched-flag", fmt.Sprintf("a batch of %d requests, none of them a launch request, set the launched flag", len(op.Reqs)), idx)
+		o.fail("C10", "batch_accepted", "non-launch-batch-set-launched-flag", fmt.Sprintf("a batch of %d requests, none of them a launch request, set the launched flag: the launch round scheduled next will be ignored and never delivered", len(op.Reqs)), idx)
+	}
 	// C10: the batch replaces, per address, what was pending
 	by := map[string][]string{}
 	order := []string{}
